@@ -60,6 +60,33 @@ def generate(g, tier):
         cases.append(dict(op='compile', src=dict(text=t), meta=dict(family='fresh-pass', expout=['STRING 0', 'STRING zero'])))
         t = f'{head}\n    ELSE\n        STRING else-{cvar}\n    IF TRUE\n        PASS'
         cases.append(dict(op='compile', src=dict(text=t), meta=dict(family='fresh-pass', expout=[f'STRING else-{cvar}'] * 3)))
+    # what a loop's condition or count reads may be ANY state the body changes: the system variable $DEFAULT_DELAY (changed by the
+    # DEFAULT_DELAY command, no user variable involved), and values that change only in TYPE (1 -> TRUE: equal as numbers, different
+    # once concatenated to a string) — the condition is evaluated anew before every iteration
+    for _ in range(count(tier, 30, 300)):
+        a, step = r.choice([0, 5, 10]), r.choice([5, 10, 7])
+        n = r.randint(0, 5)
+        lim = a + n * step
+        kw = r.choice(['WHILE', 'while'])
+        form = r.choice(['sys-while', 'sys-while-counter', 'sys-repeat', 'type-only', 'sys-nested'])
+        if form == 'sys-while':
+            text = f'DEFAULT_DELAY {a}\n{kw} $DEFAULT_DELAY<{lim}\n    $STRING "d="+$DEFAULT_DELAY\n    DEFAULT_DELAY $DEFAULT_DELAY+{step}\nSTRING end'
+            exp = [f'DEFAULT_DELAY {a}'] + [x for i in range(n) for x in (f'STRING d={a + i * step}', f'DEFAULT_DELAY {a + (i + 1) * step}')] + ['STRING end']
+        elif form == 'sys-while-counter':
+            text = f'DEFAULT_DELAY {a}\n{kw} c,$DEFAULT_DELAY<{lim}\n    $STRING "c="+c\n    DEFAULT_DELAY $DEFAULT_DELAY+{step}\nSTRING end'
+            exp = [f'DEFAULT_DELAY {a}'] + [x for i in range(n) for x in (f'STRING c={i}', f'DEFAULT_DELAY {a + (i + 1) * step}')] + ['STRING end']
+        elif form == 'sys-repeat':
+            k = r.randint(1, 4)
+            text = f'DEFAULT_DELAY {k}\nREPEAT $DEFAULT_DELAY\n    STRING r\n    DEFAULT_DELAY 1\nSTRING end'      # the count is re-read: one iteration
+            exp = [f'DEFAULT_DELAY {k}', 'STRING r', 'DEFAULT_DELAY 1', 'STRING end']
+        elif form == 'type-only':
+            v0, v1, lit = r.choice([('1', 'TRUE', '"x1"'), ('0', 'FALSE', '"x0"'), ('TRUE', '1', '"xTrue"'), ('FALSE', '0', '"xFalse"')])
+            text = f'VAR a {v0}\n{kw} ("x"+a)=={lit}\n    STRING it\n    VAR a {v1}\nSTRING end'
+            exp = ['STRING it', 'STRING end']
+        else:
+            text = (f'DEFAULT_DELAY {a}\nREPEAT 2\n    {kw} $DEFAULT_DELAY<{lim}\n        DEFAULT_DELAY $DEFAULT_DELAY+{step}\n    STRING round\nSTRING end')
+            exp = [f'DEFAULT_DELAY {a}'] + [f'DEFAULT_DELAY {a + (i + 1) * step}' for i in range(n)] + ['STRING round', 'STRING round', 'STRING end']
+        cases.append(dict(op='compile', timeout=60, src=dict(text=text), meta=dict(family='loop-reads-other-state', expout=exp, nocorr=False)))
     return cases
 
 
